@@ -123,10 +123,19 @@ def run(pid, tier, seed):
             groups.append((dict(topo_checks.CFG), [topo_checks.removal_scenario("node-removed-in-flight-%d" % k) for k in range(2)], "removal", None))
             specs["removal"] = dict(spec="TopoTrace", cfgfile="TopoTrace.cfg", par=1)
         viol = []
-        for cfg, scs, tag, conform in groups:
-            if not scs:
-                continue
-            r = common.replay_and_validate(cfg, scs, wd, tag, conform=conform, group=grp.get(tag, 1), **specs.get(tag, {}))
+        groups = [g for g in groups if g[1]]
+
+        def do(g):
+            cfg, scs, tag, conform = g
+            t_g = time.time()
+            r = common.replay_and_validate(cfg, scs, wd, tag, conform=conform, group=grp.get(tag, 1), **dict(dict(par=8), **specs.get(tag, {})))
+            if os.environ.get("VERIF_TIMING"):
+                log("timing: %s %d scenarios %.1fs (conform=%s)" % (tag, len(scs), time.time() - t_g, conform is not None))
+            return r
+        from concurrent.futures import ThreadPoolExecutor
+        with ThreadPoolExecutor(max_workers=4) as ex:
+            results = list(ex.map(do, groups))
+        for (cfg, scs, tag, conform), r in zip(groups, results):
             cov["states"] += r["states"]
             cov["transitions"] += r["transitions"]
             cov["traces"] += r["traces"]
